@@ -35,12 +35,14 @@ class C04(rowgen.RowGenProp):
     theorems = ["Wheatley.C04.call_inert_before_position", "Wheatley.C04.undefined_call_no_immediate_change",
                 "Wheatley.C04.bob_fires", "Wheatley.C04.single_fires", "Wheatley.C04.queued_call_runs_out",
                 "Wheatley.C04.plain_stays_plain", "Wheatley.C04.dixon_bob_law", "Wheatley.C04.deterministic",
-                "Wheatley.C04.cli_calls_are_the_given_ones"]
+                "Wheatley.C04.cli_calls_are_the_given_ones", "Wheatley.C04.call_changes_no_row_now"]
     # the command line: what of the built configuration this property is about
     cli_fields = ['source']
     level_text = ("theorems: a pending call is inert until a row whose lead index has a definition; there its first "
                   "change is used and the flags clear; a queued call of length n occupies exactly n rows and leaves a "
-                  "plain state; plain states stay plain (all unbounded). correspondence: random methods x call "
+                  "plain state; plain states stay plain (all unbounded); system level: the delivery of a Bob or Single, in "
+                  "any state of the timed world, changes no row, place, generator position or queued notation and "
+                  "strikes nothing. correspondence: random methods x call "
                   "definitions (positions -L..2L, lengths 1-4) x start indices x call histories over many leads, and "
                   "arbitrary (also doubly pending) histories; oracle = independent reference call machine. "
                   "non-trivial = a call fired (rows differ from the plain course)")
